@@ -711,18 +711,8 @@ pub fn generate(tier: Tier, rng: &mut Rng, emit: &mut dyn FnMut(String)) {
         regions.dedup();
         emit(format!("process guardcase kind:{kind} regions:{} addr:{addr}", regions.iter().map(|r| format!("{}:{}:{}", r.0, r.1, r.2 as u8)).collect::<Vec<_>>().join(",")));
     }
-    // ---- crashing-instruction sweep (oracle-only): every opcode of the one-byte and 0F maps
-    let pfxs: &[&str] = if quick { &["-", "48"] } else { &["-", "48", "66", "f3", "f2", "67", "41", "4c", "f0", "64"] };
-    for pfx in pfxs {
-        for map in ["1", "0f"] {
-            for op in 0..=255u32 {
-                if quick && *pfx == "48" && op % 2 == 1 {
-                    continue; // half of the REX.W sweep in the quick tier
-                }
-                emit(format!("process opscan pfx:{pfx} map:{map} op:{op}"));
-            }
-        }
-    }
+    // ---- the crashing-instruction sweep moved to `process_opana.rs` (`opsweep`: model-compared, more
+    // prefixes and maps); `opscan` case lines are still understood (corpus / old replays)
     for _ in 0..(if quick { 1000 } else { 10000 }) {
         emit(format!("process op code:{} rsp:{}", hex(&pg::gen_code(rng)), *rng.pick(&[0u64, 4, 8, 0x7ffd_0000_0010, u64::MAX])));
     }
